@@ -545,4 +545,201 @@ theorem nextOf_spec {ch : List Leaf} (hs : ch.Pairwise (fun L M => L.lo < M.lo))
         · omega
         · exact a3 M hM' hlt
 
+/-! ## split -/
+
+/-- what `wSplit` does to leaf `L`: `L'` replaces it, `R` is the new right sibling. -/
+structure SplitOf (ch : List Leaf) (nid : Nat) (L L' R : Leaf) (k : Nat) : Prop where
+  hL : L ∈ ch
+  id' : L'.id = L.id
+  lo' : L'.lo = L.lo
+  vins' : L'.vins = L.vins
+  vsplit' : L'.vsplit = L.vsplit
+  dirty' : L'.dirty = true
+  locked' : L'.locked = L.locked
+  rid : R.id = nid
+  rlo : L.lo < R.lo
+  rown : Owns ch L R.lo
+  rdirty : R.dirty = true
+  rlocked : R.locked = true
+  rvins : R.vins = L.vins
+  rvsplit : R.vsplit = L.vsplit
+  keysL : ∀ x ∈ L'.keys, x < R.lo ∧ (x ∈ L.keys ∨ x = k)
+  keysR : ∀ x ∈ R.keys, R.lo ≤ x ∧ (x ∈ L.keys ∨ x = k)
+  keysAll : ∀ x, x ∈ L.keys ∨ x = k → x ∈ L'.keys ∨ x ∈ R.keys
+  sortedL : L'.keys.Pairwise (· < ·)
+  sortedR : R.keys.Pairwise (· < ·)
+
+theorem splitOf_step {ch : List Leaf} {nid : Nat} (hc : ChainInv ch nid) {L : Leaf} (hL : L ∈ ch)
+    {h p k : Nat} {up : List Nat} (hh : 1 ≤ h) (hdrop : L.keys.drop h = p :: up) :
+    SplitOf ch nid L
+      { L with dirty := true, keys := if k < p then insertSorted k (L.keys.take h) else L.keys.take h }
+      { id := nid, lo := p, keys := if k < p then p :: up else insertSorted k (p :: up)
+        vins := L.vins, vsplit := L.vsplit, locked := true, dirty := true } k := by
+  have hsorted := hc.ksorted L hL
+  have hlt := take_lt_drop hsorted h
+  rw [hdrop] at hlt
+  have hdsorted : (p :: up).Pairwise (· < ·) := by
+    rw [← hdrop]; exact hsorted.sublist (List.drop_sublist _ _)
+  have htsorted : (L.keys.take h).Pairwise (· < ·) := hsorted.sublist (List.take_sublist _ _)
+  have hpmem : p ∈ L.keys := List.mem_of_mem_drop (by rw [hdrop]; exact List.mem_cons_self)
+  have hsplit : ∀ x, x ∈ L.keys ↔ x ∈ L.keys.take h ∨ x ∈ p :: up := by
+    intro x
+    conv => lhs; rw [← List.take_append_drop h L.keys, hdrop]
+    exact List.mem_append
+  have hple : ∀ x ∈ p :: up, p ≤ x := by
+    intro x hx
+    rcases List.mem_cons.mp hx with rfl | hx'
+    · exact Nat.le_refl _
+    · exact Nat.le_of_lt ((List.pairwise_cons.mp hdsorted).1 x hx')
+  refine { hL := hL, id' := rfl, lo' := rfl, vins' := rfl, vsplit' := rfl, dirty' := rfl,
+           locked' := rfl, rid := rfl, rlo := ?_, rown := hc.keysIn L hL p hpmem, rdirty := rfl,
+           rlocked := rfl, rvins := rfl, rvsplit := rfl, keysL := ?_, keysR := ?_, keysAll := ?_,
+           sortedL := ?_, sortedR := ?_ }
+  · -- the lower part is not empty
+    show L.lo < p
+    cases hk : L.keys with
+    | nil => rw [hk] at hdrop; simp at hdrop
+    | cons x0 tl =>
+      have hx0 : x0 ∈ L.keys.take h := by
+        rw [hk]
+        obtain ⟨h', rfl⟩ : ∃ h', h = h' + 1 := ⟨h - 1, by omega⟩
+        simp
+      have := hlt x0 hx0 p List.mem_cons_self
+      have := (hc.keysIn L hL x0 (List.mem_of_mem_take hx0)).1
+      omega
+  · intro x hx
+    show x < p ∧ _
+    simp only at hx
+    split at hx
+    · rename_i hkp
+      rcases mem_insertSorted.mp hx with rfl | ⟨hx', _⟩
+      · exact ⟨hkp, Or.inr rfl⟩
+      · exact ⟨hlt x hx' p List.mem_cons_self, Or.inl (List.mem_of_mem_take hx')⟩
+    · exact ⟨hlt x hx p List.mem_cons_self, Or.inl (List.mem_of_mem_take hx)⟩
+  · intro x hx
+    show p ≤ x ∧ _
+    simp only at hx
+    split at hx
+    · exact ⟨hple x hx, Or.inl ((hsplit x).mpr (Or.inr hx))⟩
+    · rename_i hkp
+      rcases mem_insertSorted.mp hx with rfl | ⟨hx', _⟩
+      · exact ⟨by omega, Or.inr rfl⟩
+      · exact ⟨hple x hx', Or.inl ((hsplit x).mpr (Or.inr hx'))⟩
+  · intro x hx
+    simp only
+    by_cases hkp : k < p
+    · simp only [hkp, if_true]
+      rcases hx with hx | rfl
+      · rcases (hsplit x).mp hx with h1 | h1
+        · by_cases hxk : x = k
+          · exact Or.inl (mem_insertSorted.mpr (Or.inl hxk))
+          · exact Or.inl (mem_insertSorted.mpr (Or.inr ⟨h1, hxk⟩))
+        · exact Or.inr h1
+      · exact Or.inl (mem_insertSorted.mpr (Or.inl rfl))
+    · simp only [hkp, if_false]
+      rcases hx with hx | rfl
+      · rcases (hsplit x).mp hx with h1 | h1
+        · exact Or.inl h1
+        · by_cases hxk : x = k
+          · exact Or.inr (mem_insertSorted.mpr (Or.inl hxk))
+          · exact Or.inr (mem_insertSorted.mpr (Or.inr ⟨h1, hxk⟩))
+      · exact Or.inr (mem_insertSorted.mpr (Or.inl rfl))
+  · simp only
+    split
+    · exact pairwise_insertSorted htsorted
+    · exact htsorted
+  · simp only
+    split
+    · exact hdsorted
+    · exact pairwise_insertSorted hdsorted
+
+theorem mem_split {ch : List Leaf} {nid : Nat} {L L' R M : Leaf} {k : Nat}
+    (sp : SplitOf ch nid L L' R k) :
+    M ∈ insAfter (setLeaf ch L') L.id R ↔ M = R ∨ M = L' ∨ (M ∈ ch ∧ M.id ≠ L.id) := by
+  rw [mem_insAfter, mem_setLeaf sp.hL sp.id']
+  constructor
+  · rintro (h | ⟨rfl, _⟩)
+    · exact Or.inr h
+    · exact Or.inl rfl
+  · rintro (rfl | h)
+    · exact Or.inr ⟨rfl, L', (mem_setLeaf sp.hL sp.id').mpr (Or.inl rfl), sp.id'⟩
+    · exact Or.inl h
+
+/-- every fence after the split is an old fence or the new one -/
+theorem split_los {ch : List Leaf} {nid : Nat} {L L' R : Leaf} {k : Nat}
+    (sp : SplitOf ch nid L L' R k) :
+    ∀ M' ∈ insAfter (setLeaf ch L') L.id R, M' = R ∨ ∃ M ∈ ch, M.lo = M'.lo ∧ M.id = M'.id := by
+  intro M' hM'
+  rcases (mem_split sp).mp hM' with rfl | rfl | ⟨h1, _⟩
+  · exact Or.inl rfl
+  · exact Or.inr ⟨L, sp.hL, sp.lo'.symm, sp.id'.symm⟩
+  · exact Or.inr ⟨M', h1, rfl, rfl⟩
+
+/-- a leaf other than the split one keeps its range -/
+theorem Owns.split_other {ch : List Leaf} {nid : Nat} (hc : ChainInv ch nid) {L L' R : Leaf} {k : Nat}
+    (sp : SplitOf ch nid L L' R k) {M : Leaf} (hM : M ∈ ch) (hne : M.id ≠ L.id) {x : Nat}
+    (ho : Owns ch M x) : Owns (insAfter (setLeaf ch L') L.id R) M x := by
+  refine ⟨ho.1, fun M' hM' hlt => ?_⟩
+  rcases split_los sp M' hM' with rfl | ⟨M0, hM0, e, _⟩
+  · -- M.lo < R.lo: then M is left of L
+    have hne' : M.lo ≠ L.lo := fun e => hne (by rw [hc.eq_of_lo hM sp.hL e])
+    rcases Nat.lt_or_gt_of_ne hne' with h | h
+    · have := ho.2 L sp.hL h
+      have := sp.rlo
+      omega
+    · have := sp.rown.2 M hM h
+      omega
+  · rw [← e]; exact ho.2 M0 hM0 (by rw [e]; exact hlt)
+
+theorem chainInv_split {ch : List Leaf} {nid : Nat} (hc : ChainInv ch nid) {L L' R : Leaf} {k : Nat}
+    (sp : SplitOf ch nid L L' R k) (hok : Owns ch L k) :
+    ChainInv (insAfter (setLeaf ch L') L.id R) (nid + 1) := by
+  have hownL : ∀ x, x ∈ L.keys ∨ x = k → Owns ch L x := by
+    rintro x (hx | rfl)
+    · exact hc.keysIn L sp.hL x hx
+    · exact hok
+  have hc1 : ChainInv (setLeaf ch L') nid :=
+    chainInv_setLeaf hc sp.hL sp.id' sp.lo' (fun x hx => hownL x (sp.keysL x hx).2) sp.sortedL
+  have hlos1 := setLeaf_los sp.hL sp.id' sp.lo'
+  refine ⟨?_, ?_, ?_, ?_, ?_⟩
+  · refine pairwise_lo_insAfter hc1.sorted ?_
+    intro X hX hXid
+    have hXlo : X.lo = L.lo := by
+      rcases (mem_setLeaf sp.hL sp.id').mp hX with rfl | ⟨_, h2⟩
+      · exact sp.lo'
+      · exact absurd hXid h2
+    rw [hXlo]
+    refine ⟨sp.rlo, fun M hM hlt => ?_⟩
+    obtain ⟨M0, hM0, e⟩ := hlos1 M hM
+    rw [← e]; exact sp.rown.2 M0 hM0 (by rw [e]; exact hlt)
+  · refine pairwise_id_insAfter hc1.ids ?_
+    intro X hX
+    have := hc1.idlt X hX
+    rw [sp.rid]; omega
+  · intro M hM
+    rcases (mem_split sp).mp hM with rfl | rfl | ⟨h1, _⟩
+    · rw [sp.rid]; omega
+    · rw [sp.id']; have := hc.idlt L sp.hL; omega
+    · have := hc.idlt M h1; omega
+  · intro M hM x hx
+    rcases (mem_split sp).mp hM with rfl | rfl | ⟨h1, h2⟩
+    · obtain ⟨hle, hmem⟩ := sp.keysR x hx
+      refine ⟨hle, fun M' hM' hlt => ?_⟩
+      rcases split_los sp M' hM' with rfl | ⟨M0, hM0, e, _⟩
+      · omega
+      · rw [← e]
+        exact (hownL x hmem).2 M0 hM0 (by have := sp.rlo; omega)
+    · obtain ⟨hlt', hmem⟩ := sp.keysL x hx
+      refine ⟨by rw [sp.lo']; exact (hownL x hmem).1, fun M' hM' hlt => ?_⟩
+      rcases split_los sp M' hM' with rfl | ⟨M0, hM0, e, _⟩
+      · exact hlt'
+      · rw [← e]
+        exact (hownL x hmem).2 M0 hM0 (by rw [e, ← sp.lo']; exact hlt)
+    · exact (hc.keysIn M h1 x hx).split_other hc sp h1 h2
+  · intro M hM
+    rcases (mem_split sp).mp hM with rfl | rfl | ⟨h1, _⟩
+    · exact sp.sortedR
+    · exact sp.sortedL
+    · exact hc.ksorted M h1
+
 end Yak.Proto.NodeSet
